@@ -278,7 +278,28 @@ func runC15(c *engine.Ctx) {
 			c.Undecide(s0.fn+">"+s0.gate, token.NoPos, "nothing consults the %s plugin chain any more", s0.gate)
 			continue
 		}
-		for _, f := range hosts {
+		// the gate may have been split out into a step of its own (admit…()): then the function that calls that step
+		// and performs the action is judged, with the step explored inline (its verdict literal is part of the path)
+		var judged []*ssa.Function
+		for _, g := range hosts {
+			if len(engine.CallsTo(g, s0.actionObj)) > 0 {
+				judged = append(judged, g)
+				continue
+			}
+			found := false
+			if gobj, _ := g.Object().(*types.Func); gobj != nil && !gobj.Exported() {
+				for _, f := range allFuncsOfPkg(g.Pkg) {
+					if len(engine.CallsTo(f, gobj)) > 0 && len(engine.CallsTo(f, s0.actionObj)) > 0 {
+						judged = append(judged, f)
+						found = true
+					}
+				}
+			}
+			if !found {
+				judged = append(judged, g)
+			}
+		}
+		for _, f := range judged {
 			s := s0
 			s.fn = p.FuncName(f)
 			actions := engine.CallsTo(f, s.actionObj)
@@ -323,7 +344,18 @@ func runC15(c *engine.Ctx) {
 			if f == nil {
 				continue
 			}
-			for _, cl := range engine.CallsTo(f, pxyClose) {
+			type closeSite struct {
+				host *ssa.Function
+				cl   ssa.CallInstruction
+			}
+			var csites []closeSite
+			for _, g := range append([]*ssa.Function{f}, allAnon(f)...) { // f and the steps split out of it
+				for _, cl := range engine.CallsTo(g, pxyClose) {
+					csites = append(csites, closeSite{g, cl})
+				}
+			}
+			for _, cs := range csites {
+				cl, f := cs.cl, cs.host
 				n++
 				// the notification may be issued from a goroutine closure started on the path
 				c.AllPaths(sym, engine.PathCheck{Fn: f, From: cl, KeepLoopFacts: true,
@@ -439,7 +471,7 @@ func runC15(c *engine.Ctx) {
 							why = "the content is allocated outside the loop that closes the proxies: all notifications share one value that the loop keeps overwriting"
 						}
 					}
-				} else if al.Parent() != host {
+				} else if al.Parent() != host && al.Parent().Parent() != host && host.Parent() != al.Parent() {
 					okFresh, why = false, "the content is not allocated by the helper that sends it"
 				} // else: allocated by the helper, hence once per call, i.e. per closed proxy
 				// the name stored into the content derives from GetName of a closed proxy
@@ -467,6 +499,12 @@ func runC15(c *engine.Ctx) {
 								}
 							}
 						}
+					}
+				}
+				if !nameOK {
+					// through whatever helpers carry the name (a notify(name) step): where the stored name comes from
+					if s := engine.DeepSourcesOfField(c.P, al, nameF); s.HasCall(getName) {
+						nameOK = true
 					}
 				}
 				if okFresh && !nameOK {
